@@ -5,7 +5,8 @@ Tie to the code: generated cluster specs / topic sets go through the real `Build
 Lean model (`lean/Driver/C39.lean`); lines are diffed.  Direct monitors on the implementation's
 output: (a) the metadata lists brokers 0..r-1 with the pod DNS name the *deployed* StatefulSet /
 headless Service give (those objects are produced by the real reconcilers against a fake API
-server — `dep` lines), leaders are listed brokers, partition ids are 0..n-1; (b) every bucket name
+server — `dep` lines; since r3 EVERY `md` case is paired with the `dep` line of the same spec, and cluster names of 40..253
+characters around the 47/48 boundary of `<name>-broker-headless` vs the 63-character DNS label are generated), leaders are listed brokers, partition ids are 0..n-1; (b) every bucket name
 satisfies the S3 general-purpose bucket naming rules.
 """
 import re
@@ -22,6 +23,12 @@ OBLIGATIONS = [
     "KafVerif.C39.build_panics_iff",
     "KafVerif.C39.pod_host_is_statefulset_dns",
     "KafVerif.C39.statefulset_replicas_match",
+    "KafVerif.C39.headless_name_any_length",
+    "KafVerif.C39.published_host_service_is_deployed_service",
+    "KafVerif.C39.brokers_published_under_deployed_service",
+    "KafVerif.C39.headless_label_fits_iff",
+    "KafVerif.C39.cut_service_same_for_short_names",
+    "KafVerif.C39.cut_service_breaks_every_long_name",
     "KafVerif.C39.bucket_valid",
     "KafVerif.C39.lowerLatin1_fixes",
     "KafVerif.C39.bucket_old_violates",
@@ -31,11 +38,15 @@ ASSUMPTIONS = [
     "the nil-replicas mismatch (StatefulSet defaults to 3, metadata to 1) is outside the quantifier and only noted",
     "strings.ToLower is an arbitrary rune-wise function that fixes [a-z0-9-] in the bucket theorem; the executable model lowers ASCII and Latin-1",
     "int32 arithmetic is modelled with unbounded integers (replica / partition counts far below 2^31)",
+    "cluster names longer than 47 characters give a headless Service name '<name>-broker-headless' longer than the 63-character DNS label "
+    "limit on the unchanged code (headless_label_fits_iff); a real API server would refuse that Service; counted in the evidence "
+    "(residual_headless_service_name_longer_than_63), not alarmed - the property only asks that published hosts and deployed objects agree",
     "S3 rule 'must not end with -s3alias' is NOT guaranteed by the code (cluster named '...-s3alias'); counted in the evidence, not part of validBucket",
 ]
 TECHNIQUE = "Lean 4 refinement theorem for BuildClusterMetadata (closed form over List.range) and a validity theorem for every derived bucket name; differential correspondence + monitors incl. the deployed StatefulSet/Service from the real reconcilers on a fake API server"
 LEVEL_TEXT = ("proof: build_eq_spec (BuildClusterMetadata = prescribed metadata on every CRD-valid spec/topic set) with corollaries "
-              "brokers_match, leaders_valid, partitions_dense; bucket_valid for every namespace/name (length 3-63, [a-z0-9-], alphanumeric ends, "
+              "brokers_match, leaders_valid, partitions_dense; published_host_service_is_deployed_service (for names of any length the published "
+              "host is a pod address under svc iff svc = the deployed serviceName); bucket_valid for every namespace/name (length 3-63, [a-z0-9-], alphanumeric ends, "
               "kafscale-etcd prefix, no '--') — all full strength")
 LEVEL_NOTE = "correspondence and monitors are testing; they tie the model to the current source"
 BUILDS = {"h": ("root", "./cmd/verif_c39", ["C39"])}
@@ -103,6 +114,35 @@ def gen_name(rng):
 
 
 DNS_NAMES = ["demo", "prod-eu", "a", "kafscale", "a-b-c", "k8s-cluster-01", "x" * 40, "team1"]
+# r3: `<name>-broker-headless` is 16 characters longer than the cluster name, so it crosses the 63-character DNS-label limit
+# at name length 47/48.  Kubernetes object names are DNS subdomains (<= 253 characters, '.' allowed), so such names are CRD-valid.
+HEADLESS_SUFFIX_LEN = len("-broker-headless")
+LABEL_MAX = 63
+LONG_LENGTHS = [40, 44, 45, 46, 47, 48, 49, 50, 52, 55, 60, 62, 63, 64, 65, 70, 100, 180, 237, 253]
+FIXED_LONG_NAMES = (["a" * n for n in (46, 47, 48, 49, 50, 52, 63, 64, 100)] +
+                    ["a" * 46 + "-" + "b" * 5, "a" * 45 + "-." + "b" * 5, "a" * 46 + "." + "b" * 3, "a" * 47 + "-b", "a" * 44 + "---" + "b" * 9,
+                     "k8s-" + "prod-eu-west-1-" * 3 + "kafka", "team.alpha." + "x" * 40 + ".v2"])
+K8S_NAME_RE = re.compile(r"^[a-z0-9]([-a-z0-9.]*[a-z0-9])?$")
+
+
+def k8s_name_ok(s):
+    return 0 < len(s) <= 253 and bool(K8S_NAME_RE.match(s))
+
+
+def long_dns_name(rng):
+    """k8s-valid cluster names with lengths around (and far beyond) 47, with '-' / '.' around the 47th character"""
+    n = rng.choice(LONG_LENGTHS) if rng.chance(2, 3) else rng.range(40, 70)
+    if rng.chance(1, 3):
+        chars = [rng.choice("abcxyz019")] * n
+    else:
+        chars = [rng.choice("abcdefxyz0189") for _ in range(n)]
+    if rng.chance(2, 3):
+        for _ in range(rng.range(1, 3)):
+            pos = rng.range(42, 50)
+            if 0 < pos < n - 1:
+                chars[pos] = rng.choice("--.")
+    return "".join(chars)
+
 DNS_NS = ["default", "kafka", "ns-1", "prod", "a"]
 HOSTS = ["", "", "broker.example.com", " 10.0.0.7 ", "  ", "kafka.local", "LB.Example.COM", "\tlb\n"]
 REPLICAS = ["1", "1", "2", "3", "3", "5", "7", "16", "40"]
@@ -113,7 +153,11 @@ TOPICS = ["orders", "payments", "t", "a.b", "Orders", "__consumer_offsets", "x" 
 
 
 def gen_md(rng, dns=False):
-    name = rng.choice(DNS_NAMES) if dns or rng.chance(3, 4) else gen_name(rng)
+    r = rng.below(8)
+    if dns:
+        name = rng.choice(DNS_NAMES) if r < 3 else long_dns_name(rng)
+    else:
+        name = rng.choice(DNS_NAMES) if r < 4 else long_dns_name(rng) if r < 6 else gen_name(rng)
     ns = rng.choice(DNS_NS) if dns or rng.chance(3, 4) else gen_name(rng)
     rep = rng.choice(REPLICAS) if dns or rng.chance(7, 8) else rng.choice(BAD_REPLICAS)
     host = rng.choice(HOSTS)
@@ -180,6 +224,8 @@ def monitor_md(c, o, deployed=None):
             return "statefulset-replicas-differ-from-metadata", "StatefulSet has %d replicas, metadata %d brokers" % (deployed["replicas"], r)
         if not deployed["headless"]:
             return "governing-service-not-headless", "StatefulSet serviceName %r is not a headless Service" % svc
+        if deployed.get("env") is not None and deployed["env"] != svc:
+            return "broker-service-env-differs-from-governing-service", "pods get KAFSCALE_BROKER_SERVICE=%r, StatefulSet serviceName is %r" % (deployed["env"], svc)
     if ctrl not in ids:
         return "controller-not-a-broker", "controller id %d not among brokers" % ctrl
     if [t for t, _ in mtopics] != [t for t, _ in topics]:
@@ -211,8 +257,8 @@ def run(ck):
         return
     binary = bins["h"]
     q = ck.quick()
-    ck.cov["rule"] = ("one case = one op line: `md` (cluster spec + topic set through BuildClusterMetadata), `dep`+`md` pairs (the same "
-                      "spec through the StatefulSet/Service reconcilers), `bk` (namespace,name -> default bucket), `san` (raw -> sanitizeBucketName); "
+    ck.cov["rule"] = ("one case = one op line: `md` (cluster spec + topic set through BuildClusterMetadata), every md is preceded by the `dep` line of the same "
+                      "spec (StatefulSet/Service reconcilers on a fake API server; names up to 253 characters, dense around 47), `bk` (namespace,name -> default bucket), `san` (raw -> sanitizeBucketName); "
                       "non-trivial: md with >=2 brokers and >=1 partition, bucket inputs that need sanitising or cutting; distinct = distinct op lines")
     ops, meta = [], []
     # fixed regression inputs first: the pre-fix defect and the cut boundary
@@ -228,13 +274,18 @@ def run(ck):
         if ck.rng.chance(1, 2):
             raw = "kafscale-etcd-" + raw
         ops.append("san " + hx(raw)); meta.append(("san", raw))
-    for _ in range(400 if q else 4000):
-        c = gen_md(ck.rng)
-        ops.append(md_line("md", c)); meta.append(("md", c, None))
-    for _ in range(40 if q else 300):
-        c = gen_md(ck.rng, dns=True)
+    def pair(c):
+        # r3: EVERY md case is preceded by the `dep` line of the same spec, so its hosts are compared with the objects the real
+        # reconcilers deploy for that very name/namespace (not with a formula in this file)
         ops.append(md_line("dep", c)); meta.append(("dep", c))
         ops.append(md_line("md", c)); meta.append(("md", c, len(ops) - 2))
+    # fixed long-name regression inputs (independent of the seed): name lengths around 47 (= 63 - len("-broker-headless"))
+    for k, name in enumerate(FIXED_LONG_NAMES):
+        pair((name, DNS_NS[k % len(DNS_NS)], ["3", "2", "1", "5"][k % 4], "" if k % 3 else "broker.example.com", "nil", [("orders", 3)]))
+    for _ in range(400 if q else 4000):
+        pair(gen_md(ck.rng))
+    for _ in range(40 if q else 300):
+        pair(gen_md(ck.rng, dns=True))
     impl, fn, crash = run_lines(ck, binary, ops, "all")
     if crash:
         ck.broke("implementation harness did not answer every op", crash)
@@ -268,10 +319,18 @@ def run(ck):
             dep = None
             if m[2] is not None and impl[m[2]].startswith("deployed "):
                 kv = dict(x.split("=", 1) for x in impl[m[2]].split()[1:])
-                dep = {"sts": unhx(kv["sts"]), "svc": unhx(kv["svc"]), "replicas": int(kv["replicas"]), "headless": unhx(kv["headless"])}
+                dep = {"sts": unhx(kv["sts"]), "svc": unhx(kv["svc"]), "replicas": int(kv["replicas"]), "headless": unhx(kv["headless"]),
+                       "env": unhx(kv["env"]) if "env" in kv else None}
                 ck.count("md_checked_against_deployed_objects")
-            elif m[2] is not None:
+                n = len(c[0])
+                ck.count("md_vs_deployed_name_len_" + ("le40" if n <= 40 else "41_47" if n <= 47 else "48_63" if n <= 63 else "ge64"))
+                if len(dep["svc"]) > LABEL_MAX:
+                    # residual of the unchanged code (noted, never alarmed): the Service name is not a valid DNS label
+                    ck.count("residual_headless_service_name_longer_than_63")
+            elif m[2] is not None and k8s_name_ok(c[0]) and k8s_name_ok(c[1]):
                 bad = ("reconciler-failed", "broker reconcilers failed on a valid spec: %s" % impl[m[2]])
+            elif m[2] is not None:
+                ck.count("md_name_not_deployable_on_fake_api_server")
             valid = c[2] not in BAD_REPLICAS and all(p >= 0 for _, p in c[5])
             ck.count("md_crd_valid" if valid else "md_crd_invalid")
             ck.case(op, nontrivial=valid and int(c[2]) >= 2 and any(p > 0 for _, p in c[5]),
@@ -282,7 +341,10 @@ def run(ck):
                 bad = ("metadata-line-unparsable", "%r on %s" % (e, io[:200]))
         else:
             # `dep`: what the real reconcilers deployed vs the model of cluster_controller.go's naming
-            ck.case(op, nontrivial=False)
+            ck.case(op, nontrivial=len(m[1][0]) > LABEL_MAX - HEADLESS_SUFFIX_LEN)
+            ck.count("dep_lines")
+            if io == "err" and not (k8s_name_ok(m[1][0]) and k8s_name_ok(m[1][1])):
+                continue  # the fake API server refused a name no real API server would have admitted either
             if io != mo and first_corr is None:
                 first_corr = (op, io, mo, m)
             continue
@@ -330,7 +392,8 @@ def replay(ck, path):
         dep = None
         if len(ops) == 2 and impl[0].startswith("deployed "):
             kv = dict(x.split("=", 1) for x in impl[0].split()[1:])
-            dep = {"sts": unhx(kv["sts"]), "svc": unhx(kv["svc"]), "replicas": int(kv["replicas"]), "headless": unhx(kv["headless"])}
+            dep = {"sts": unhx(kv["sts"]), "svc": unhx(kv["svc"]), "replicas": int(kv["replicas"]), "headless": unhx(kv["headless"]),
+                       "env": unhx(kv["env"]) if "env" in kv else None}
         bad = monitor_md(c, impl[-1], dep)
         if bad:
             ck.violation(bad[0], bad[1], {"ops": ops, "spec": rep["spec"], "actual": bad[1]})
